@@ -569,8 +569,37 @@ pub fn run(ctx: &Ctx) -> ! {
             (built, v.map(|(k, m)| Violation::new(k, format!("{m} after one roll from a constructed boundary window (n={n}, out={o}, in={i}, sums ≡ ({a}, {b}))"), json!({"boundary": {"n": n, "out": o, "in": i, "a": a, "b": b}})).with("kind", json!(k))))
         })
         .collect();
-    let built = bres.iter().filter(|r| r.0).count() as u64;
-    if built * 100 < bjobs.len() as u64 * 95 {
+    // Tier B2: windows LONGER than the modulus (65522 … 65536 bytes): every small value T of the intermediate sum
+    // b_old + a_new (0 … 4000, i.e. below (n - 65521) * 255 for every such n), split three ways between its two terms.
+    let mut b2jobs: Vec<(usize, u8, u8, u32, u32)> = Vec::new();
+    let big_ns: Vec<usize> = if thorough { vec![65_522, 65_523, 65_529, 65_535, 65_536] } else { vec![65_522, 65_536] };
+    for &n in &big_ns {
+        for o in [1u8, 255] {
+            for i in [0u8, 255] {
+                for t in 0..=4000u32 {
+                    for a_new in [0u32, t / 2, t] {
+                        let b_old = t - a_new;
+                        let a_old = (a_new + u32::from(o) + m32 - u32::from(i)) % m32;
+                        b2jobs.push((n, o, i, a_old, b_old));
+                    }
+                }
+            }
+        }
+    }
+    let b2res: Vec<(bool, Option<Violation>)> = b2jobs
+        .par_iter()
+        .map(|&(n, o, i, a, b)| {
+            let (built, v) = boundary_case(n, o, i, a, b);
+            (built, v.map(|(k, m)| Violation::new(k, format!("{m} after one roll from a constructed boundary window (n={n}, out={o}, in={i}, sums ≡ ({a}, {b}))"), json!({"boundary": {"n": n, "out": o, "in": i, "a": a, "b": b}})).with("kind", json!(k))))
+        })
+        .collect();
+    let built2 = b2res.iter().filter(|r| r.0).count() as u64;
+    if built2 * 100 < b2jobs.len() as u64 * 90 {
+        machinery_error(format!("C17 tier B2: only {built2} of {} long boundary windows could be constructed", b2jobs.len()));
+    }
+    let built = bres.iter().filter(|r| r.0).count() as u64 + built2;
+    let bres: Vec<(bool, Option<Violation>)> = bres.into_iter().chain(b2res).collect();
+    if (built - built2) * 100 < bjobs.len() as u64 * 95 {
         machinery_error(format!("C17 tier B: only {built} of {} boundary windows could be constructed", bjobs.len()));
     }
     let mut seen_b: HashSet<String> = HashSet::new();
